@@ -113,6 +113,33 @@ func c09Run(c *caseCtx) (res caseResult) {
 		}
 	}
 	nDead += nGhost
+	// redundant unsubscribes (never subscribed, twice, of a subscriber that is gone) must not cost anybody an event
+	if r.Intn(2) == 0 {
+		e.Unsubscribe(actor.NewPID("local", "never/subscribed"))
+		e.Unsubscribe(actor.NewPID("local", "deadsub/0"))
+		e.Unsubscribe(actor.NewPID("local", "deadsub/0"))
+		e.Unsubscribe(actor.NewPID("local", "ghostsub/0"))
+		if nMon > 1 {
+			// one monitor leaves properly and is unsubscribed twice
+			e.Unsubscribe(monPIDs[nMon-1])
+			e.Unsubscribe(monPIDs[nMon-1])
+			sentinel.flush(e, wd)
+			mons = mons[:nMon-1]
+			nMon--
+		}
+	}
+	// stop requests for nothing at all: no panic, and the event stream stays what it was
+	if r.Intn(2) == 0 {
+		if p := catchPanic(func() {
+			<-e.Poison(nil).Done()
+			<-e.Stop(nil).Done()
+			e.SendLocal(nil, "to nobody", nil)
+			e.Send(nil, "to nobody")
+		}); p != "" {
+			res.violate("a send / stop request with a nil PID panicked: %s", p)
+			return
+		}
+	}
 	// targets
 	stopped := e.SpawnFunc(func(*actor.Context) {}, "tgt", actor.WithID("stopped"))
 	select {
